@@ -140,6 +140,43 @@ def check_options(ctx, which, rule, table):
             for nm in ast.walk(n.value):
                 if isinstance(nm, ast.Name):
                     pl_attr.setdefault(nm.id, set()).add(dotted(n.targets[0])[3:])
+    # the same assignments written as setattr(pl, "name", var), or as a loop over a literal table of (attribute, variable) rows /
+    # dict(attribute=variable, ...) whose body is setattr(pl, attribute, value)
+    def literal_rows(it):
+        rows = []
+        if isinstance(it, (ast.List, ast.Tuple)):
+            for el in it.elts:
+                if isinstance(el, (ast.Tuple, ast.List)) and len(el.elts) == 2 and isinstance(const(el.elts[0]), str):
+                    rows.append((const(el.elts[0]), el.elts[1]))
+        elif isinstance(it, ast.Call) and isinstance(it.func, ast.Attribute) and it.func.attr == "items" and not it.args:
+            d = it.func.value
+            if isinstance(d, ast.Call) and dotted(d.func) == "dict" and not d.args:
+                rows = [(k.arg, k.value) for k in d.keywords if k.arg]
+            elif isinstance(d, ast.Dict):
+                rows = [(const(k), v) for k, v in zip(d.keys, d.values) if isinstance(const(k), str)]
+            elif isinstance(d, ast.Name):
+                for n2 in ast.walk(f):
+                    if isinstance(n2, ast.Assign) and len(n2.targets) == 1 and dotted(n2.targets[0]) == d.id:
+                        rows = literal_rows(ast.Call(func=ast.Attribute(value=n2.value, attr="items", ctx=ast.Load()), args=[], keywords=[]))
+        elif isinstance(it, ast.Name):
+            for n2 in ast.walk(f):
+                if isinstance(n2, ast.Assign) and len(n2.targets) == 1 and dotted(n2.targets[0]) == it.id:
+                    rows = literal_rows(n2.value)
+        return rows
+    for n in ast.walk(f):
+        if isinstance(n, ast.Call) and dotted(n.func) == "setattr" and len(n.args) == 3 and dotted(n.args[0]) == "pl" and isinstance(const(n.args[1]), str):
+            for nm in ast.walk(n.args[2]):
+                if isinstance(nm, ast.Name):
+                    pl_attr.setdefault(nm.id, set()).add(const(n.args[1]))
+        if isinstance(n, ast.For) and isinstance(n.target, ast.Tuple) and len(n.target.elts) == 2 and all(isinstance(e_, ast.Name) for e_ in n.target.elts):
+            a_, v_ = n.target.elts[0].id, n.target.elts[1].id
+            sets = [c_ for c_ in ast.walk(n) if isinstance(c_, ast.Call) and dotted(c_.func) == "setattr" and len(c_.args) == 3
+                    and dotted(c_.args[0]) == "pl" and dotted(c_.args[1]) == a_ and dotted(c_.args[2]) == v_]
+            if sets:
+                for attr_, val_ in literal_rows(n.iter):
+                    for nm in ast.walk(val_):
+                        if isinstance(nm, ast.Name):
+                            pl_attr.setdefault(nm.id, set()).add(attr_)
     for flag, (kind, sink) in sorted(table.items()):
         hit = br.get(flag)
         ctx.ob(rule, site, hit is not None, "flag %s is parsed" % flag, msg="documented flag %s has no branch in the argument loop" % flag)
